@@ -1,18 +1,157 @@
-"""native replay of counterexamples (stub for now)"""
-import os, json
+"""Native replay of solver counterexamples against the real code.
+
+A scratch copy of /repo's working tree is made under /verif/.work/shadow, each file that has a driver gets
+`#[cfg(test)] #[path = "/verif/replay/drivers/<name>.rs"] mod verif_replay_<name>;` appended (child module =>
+private items visible), and the crate's test binary is built with overflow-checks and debug-assertions OFF
+(= the arithmetic semantics of the shipped release profile; libtest forces panic=unwind so panics are caught)."""
+import os
+import sys
+import json
+import re
+import subprocess
+import time
+import fcntl
 import harness
+
+SHADOW = os.path.join(harness.WORK, 'shadow')
+DRIVERS = {
+    # driver file -> source file (relative to repo) it is appended to
+    'fragment': 'src/common/fragment.rs',
+}
+_built = {}
+
+
+def _env():
+    env = dict(os.environ)
+    env['CARGO_TARGET_DIR'] = os.path.join(harness.WORK, 'target-replay')
+    env['CARGO_NET_OFFLINE'] = 'true'
+    env['CARGO_PROFILE_DEV_OVERFLOW_CHECKS'] = 'false'
+    env['CARGO_PROFILE_DEV_DEBUG_ASSERTIONS'] = 'false'
+    env['CARGO_PROFILE_TEST_OVERFLOW_CHECKS'] = 'false'
+    env['CARGO_PROFILE_TEST_DEBUG_ASSERTIONS'] = 'false'
+    env['RUSTFLAGS'] = env.get('RUSTFLAGS', '') + ' -Awarnings'
+    return env
+
+
+def discover_drivers():
+    d = os.path.join(harness.VERIF, 'replay', 'drivers')
+    out = {}
+    for f in sorted(os.listdir(d)):
+        if f.endswith('.rs'):
+            name = f[:-3]
+            head = open(os.path.join(d, f)).read(400)
+            m = re.search(r'//\s*appended-to:\s*(\S+)', head)
+            out[name] = m.group(1) if m else DRIVERS.get(name)
+    return out
+
+
+def build_shadow(log=None):
+    """(re)create the shadow copy from the current working tree and build the test binary; returns (ok, secs, exe)"""
+    key = harness.src_hash()
+    if key in _built:
+        return _built[key]
+    os.makedirs(harness.WORK, exist_ok=True)
+    lock = open(os.path.join(harness.WORK, 'shadow.lock'), 'w')
+    fcntl.flock(lock, fcntl.LOCK_EX)
+    try:
+        t0 = time.time()
+        os.makedirs(SHADOW, exist_ok=True)
+        subprocess.run(['rsync', '-a', '--delete', '--exclude', 'target', '--exclude', '.git', harness.REPO + '/', SHADOW + '/'], check=True)
+        for name, rel in discover_drivers().items():
+            if not rel:
+                continue
+            p = os.path.join(SHADOW, rel)
+            if not os.path.exists(p):
+                continue
+            with open(p, 'a') as f:
+                f.write('\n#[cfg(test)]\n#[path = "%s"]\nmod verif_replay_%s;\n' % (os.path.join(harness.VERIF, 'replay', 'drivers', name + '.rs'), name))
+        r = subprocess.run(['cargo', 'test', '--offline', '--no-run', '--bin', 'redproxy-rs', '--message-format=json'],
+                           cwd=SHADOW, env=_env(), stdout=subprocess.PIPE, stderr=subprocess.PIPE)
+        exe = None
+        for ln in r.stdout.decode('utf-8', 'replace').splitlines():
+            try:
+                j = json.loads(ln)
+            except Exception:
+                continue
+            if j.get('reason') == 'compiler-artifact' and j.get('executable') and j.get('profile', {}).get('test'):
+                exe = j['executable']
+        ok = r.returncode == 0 and exe is not None
+        if not ok:
+            with open(os.path.join(harness.WORK, 'shadow-build.err'), 'wb') as f:
+                f.write(r.stderr)
+        res = (ok, round(time.time() - t0, 1), exe)
+        _built[key] = res
+        return res
+    finally:
+        fcntl.flock(lock, fcntl.LOCK_UN)
+        lock.close()
+
+
+def run_case(driver, case, timeout=120):
+    """returns outcome dict (or {'error':..})"""
+    ok, secs, exe = build_shadow()
+    if not ok:
+        return {'error': 'replay build failed (see .work/shadow-build.err)'}
+    d = os.path.join(harness.WORK, 'replays', 'cases')
+    os.makedirs(d, exist_ok=True)
+    p = os.path.join(d, '%s-%d-%d.json' % (driver, os.getpid(), int(time.time() * 1000) % 10**9))
+    json.dump(case, open(p, 'w'))
+    env = dict(os.environ)
+    env['VERIF_REPLAY'] = p
+    try:
+        r = subprocess.run([exe, 'verif_replay_%s::verif_replay' % driver, '--nocapture', '--test-threads', '1'],
+                           cwd=SHADOW, env=env, stdout=subprocess.PIPE, stderr=subprocess.PIPE, timeout=timeout)
+    except subprocess.TimeoutExpired:
+        return {'error': 'timeout', 'hang': True}
+    out = r.stdout.decode('utf-8', 'replace')
+    m = re.search(r'VERIF-OUTCOME (\{.*\})', out)
+    if m:
+        try:
+            o = json.loads(m.group(1))
+            o['_exit'] = r.returncode
+            return o
+        except Exception:
+            pass
+    if r.returncode < 0 or r.returncode in (134, 101):
+        return {'panicked': True, 'aborted': True, '_exit': r.returncode, 'stderr': r.stderr.decode('utf-8', 'replace')[-400:]}
+    return {'error': 'no outcome', '_exit': r.returncode, 'stdout': out[-400:], 'stderr': r.stderr.decode('utf-8', 'replace')[-400:]}
 
 
 def replayer(ck, ob):
+    """called by Check.finish for every violated obligation that is not a known finding.
+    returns (verdict, path): verdict in confirmed | not-reproduced | solver-only | error"""
     d = os.path.join(harness.WORK, 'replays', ck.prop)
     os.makedirs(d, exist_ok=True)
     n = len(os.listdir(d))
     p = os.path.join(d, '%d.json' % n)
-    json.dump({'property': ck.prop, 'site': ob.label, 'detail': ob.detail, 'target': ob.target,
-               'inputs': ob.finding.inputs if ob.finding else None}, open(p, 'w'), indent=1, default=str)
-    return 'solver-only', p
+    rec = {'property': ck.prop, 'site': ob.label, 'detail': ob.detail, 'target': ob.target,
+           'inputs': ob.finding.inputs if ob.finding else None}
+    plan = ck.replay_plan(ob) if hasattr(ck, 'replay_plan') else None
+    verdict = 'solver-only'
+    if plan is not None:
+        driver, case, confirm = plan
+        rec['driver'] = driver
+        rec['case'] = case
+        out = run_case(driver, case)
+        rec['native_outcome'] = out
+        if 'error' in out and not out.get('hang'):
+            verdict = 'error'
+        else:
+            try:
+                verdict = 'confirmed' if confirm(out) else 'not-reproduced'
+            except Exception as e:  # noqa
+                verdict = 'error'
+                rec['confirm_error'] = str(e)
+    rec['verdict'] = verdict
+    json.dump(rec, open(p, 'w'), indent=1, default=str)
+    ck.replays.append({'site': ob.label, 'verdict': verdict, 'file': p})
+    return verdict, p
 
 
 def main(argv):
-    print(open(argv[0]).read())
+    rec = json.load(open(argv[0]))
+    print(json.dumps(rec, indent=1))
+    if rec.get('driver'):
+        out = run_case(rec['driver'], rec['case'])
+        print('native outcome now:', json.dumps(out))
     return 0
